@@ -833,3 +833,77 @@ Proof.
     apply (flush_res_trans S i c syn (s_ncalls st) (GLive kn en) ev1 g1 s1); [exact Hg|rewrite Hnc, Hn; lia|].
     apply fa_loop_gen; assumption.
 Qed.
+
+(* ---------------------------------------------------------------- histories *)
+Definition cfg_after (c : cfg) (h : hop) : cfg :=
+  match h with
+  | HCfg a b => mkCfg a b (c_keep c)
+  | HKeep k => mkCfg (c_mpc c) (c_mt c) k
+  | _ => c
+  end.
+Definition syn_of (h : hop) : bool := match h with HSyn _ _ => true | _ => false end.
+Definition allow_of (c : cfg) (h : hop) : bool := negb (is_seg h) || limits_on c.
+
+Lemma gnote_false : forall g, gnote g false = g.
+Proof. intros [|[kn|] [|]]; reflexivity. Qed.
+
+Lemma hop_step : forall S i c st g h,
+  zlen S < HIS -> ginv c S i g st -> hop_okb S h = true ->
+  step_res S i (cfg_after c h) (allow_of (cfg_after c h) h) (syn_of h) (s_ncalls st) (gnote g (syn_of h))
+           (step fullv st (op_of S i h)).
+Proof.
+  intros S i c st g h HS Hinv Hok.
+  destruct h as [a b|k|n ts|o n fin rst ts|t tc|]; cbn [op_of step cfg_after syn_of allow_of is_seg negb orb].
+  - rewrite gnote_false.
+    econstructor; [reflexivity|reflexivity|apply gclosed_refl| |cbn [s_ncalls nsg filter length]; lia].
+    destruct Hinv as (Hcfg & Hg). unfold ginv. cbn [s_cfg s_exists s_half]. rewrite Hcfg. split; [reflexivity|exact Hg].
+  - rewrite gnote_false.
+    econstructor; [reflexivity|reflexivity|apply gclosed_refl| |cbn [s_ncalls nsg filter length]; lia].
+    destruct Hinv as (Hcfg & Hg). unfold ginv. cbn [s_cfg s_exists s_half]. rewrite Hcfg. split; [reflexivity|exact Hg].
+  - cbn [hop_okb] in Hok.
+    destruct (assemble_ok S i c st (mkSeg (i mod M32) true false false false ts (sub S 0 n)) g 0 n HS Hinv)
+      as (st' & ev & g' & He & Hg & Hi & Hnc).
+    { unfold seg_ok. cbn [g_force g_bytes g_fin g_syn g_seq].
+      split; [reflexivity|]. split; [reflexivity|]. split; [lia|]. split; [lia|]. split; [lia|].
+      split; [intros Hc; discriminate|]. split; [apply syn_seq|intros; reflexivity]. }
+    cbn [g_syn] in Hg. econstructor; [exact He|exact Hg|apply gclosed_refl|exact Hi|exact Hnc].
+  - cbn [hop_okb] in Hok.
+    destruct (assemble_ok S i c st (mkSeg (sq i o) false fin rst false ts (sub S o n)) g o n HS Hinv)
+      as (st' & ev & g' & He & Hg & Hi & Hnc).
+    { unfold seg_ok. cbn [g_force g_bytes g_fin g_syn g_seq].
+      split; [reflexivity|]. split; [reflexivity|]. split; [lia|]. split; [lia|]. split; [lia|].
+      split; [intros Hf; subst fin; cbn [negb orb] in Hok; lia|]. split; [reflexivity|intros Hc; discriminate]. }
+    cbn [g_syn] in Hg. econstructor; [exact He|exact Hg|apply gclosed_refl|exact Hi|exact Hnc].
+  - rewrite gnote_false. apply flush_opts_gen; assumption.
+  - rewrite gnote_false. apply flush_all_gen; assumption.
+Qed.
+
+(* the trace of a history, read with the abstract state *)
+Fixpoint gtrace (S : list Z) (c : cfg) (g : gst) (nc : nat) (hs : list hop) (tr : list (list event * Z)) : Prop :=
+  match hs, tr with
+  | [], [] => True
+  | h :: hs', (ev, _) :: tr' =>
+    exists gm g', gevs S (cfg_after c h) (allow_of (cfg_after c h) h) (syn_of h) nc (gnote g (syn_of h)) ev gm /\
+                  gclosed gm g' /\ gtrace S (cfg_after c h) g' (nc + nsg ev)%nat hs' tr'
+  | _, _ => False
+  end.
+
+Lemma run_gtrace : forall S i hs c st g,
+  zlen S < HIS -> ginv c S i g st -> forallb (hop_okb S) hs = true ->
+  gtrace S c g (s_ncalls st) hs (run_trace fullv st (map (op_of S i) hs)).
+Proof.
+  intros S i. induction hs as [|h t IH]; intros c st g HS Hinv Hok; cbn [map run_trace gtrace]; [exact I|].
+  cbn [forallb] in Hok. apply andb_prop in Hok. destruct Hok as (Ho1 & Ho2).
+  destruct (hop_step S i c st g h HS Hinv Ho1) as [st' ev gm g' He Hg Hgc Hi Hnc].
+  rewrite He. exists gm, g'. split; [exact Hg|]. split; [exact Hgc|]. rewrite <- Hnc. apply IH; assumption.
+Qed.
+
+(* every history: no panic (the trace has one entry per operation) and the events are legal *)
+Theorem stream_events : forall S i hs,
+  zlen S < HIS -> forallb (hop_okb S) hs = true ->
+  gtrace S (mkCfg 0 0 []) GDead 0 hs (run_hist fullv S i hs).
+Proof.
+  intros S i hs HS Hok. unfold run_hist.
+  apply (run_gtrace S i hs (mkCfg 0 0 []) init GDead HS); [|exact Hok].
+  unfold ginv, init. cbn [s_cfg s_exists]. auto.
+Qed.
